@@ -16,8 +16,8 @@ theorem treeSort_names_distinct (t t' : TNode) (h : treeSort t = .ok t') : Nodup
   treeSort_nodup t t' h
 
 /-- NUL-cut names: two raw names with the same bytes before their first NUL are duplicates for `tree_sort`. -/
-theorem decode_name_is_cstr (n : Bytes) (k : Kind) (p : Bytes) (a : Attr) (ch : List TNode) :
-    (decode (.mk n k p a ch)).name = cstr n := by
+theorem decode_name_is_cstr (tf : TreeFlags) (n : Bytes) (k : Kind) (p : Bytes) (a : Attr) (ch : List TNode) :
+    (decode tf (.mk n k p a ch)).name = cstr n := by
   simp [decode, TNode.name]
 
 /-- **Clean paths.** Every path argument in the plan is the '/'-join of components each of which is non-empty,
@@ -35,17 +35,37 @@ theorem plan_paths_clean (ord : List FileEnt → List FileEnt) (hord : OrdOK ord
     obtain ⟨h1, h2, h3, h4⟩ := hg c hc
     exact ⟨h1, (Sqfs.C18.sane_iff c).2 ⟨h3, h4, h2⟩⟩
 
-/-- **Prefixes are directories of the same plan** (unordered part of `plan_prefix_dirs`): every call of the plan
-    works on a node `(comps, k)` visited in the sorted tree; every proper non-empty prefix of `comps` is visited too,
-    as a *directory*; and a path has one kind only — so no call of the plan puts a non-directory at a prefix.
-    Not proved here: that the prefix's `mkdir` comes *earlier* in the list; `confinement` does not need it (a call
-    whose prefix is still missing fails with ENOENT and has no effect). -/
-theorem plan_prefix_dirs_partial (ord : List FileEnt → List FileEnt) (hord : OrdOK ord) (fl : Flags) (t t' : TNode)
-    (hs : treeSort t = .ok t') :
-    (∀ sc ∈ (unpackTree ord fl t).syscalls, OpFor (visitRoot t') sc) ∧
-    (∀ c k pre, (c, k) ∈ visitRoot t' → pre <+: c → pre ≠ [] → pre ≠ c → (pre, Kind.dir) ∈ visitRoot t') ∧
-    (∀ c k₁ k₂, (c, k₁) ∈ visitRoot t' → (c, k₂) ∈ visitRoot t' → k₁ = k₂) :=
-  ⟨unpackTree_ops ord hord fl t t' hs, visitRoot_prefix t', visitRoot_fun (treeSort_nodup t t' hs)⟩
+/-- **Prefixes are directories made earlier by the same plan.**  Take any call of the plan, at any position
+    (`l₁` = the events before it).  Its path is the join of good components `c`, and for every proper non-empty prefix
+    `pre` of `c`: (1) a `mkdir` of `pre` occurs in `l₁`, i.e. *earlier*; (2) every creating call (`mkdir`, `symlink`,
+    `mknod`, `open(O_CREAT|O_EXCL)`) anywhere in the plan whose path is `pre` is a `mkdir` — nothing in the plan puts a
+    non-directory at a prefix.  (From sortedness + duplicate rejection in `tree_sort`, names being the NUL-cut C strings.) -/
+theorem plan_prefix_dirs (ord : List FileEnt → List FileEnt) (hord : OrdOK ord) (fl : Flags) (t : TNode)
+    (l₁ : List Ev) (sc : Syscall) (l₂ : List Ev) (h : (unpackTree ord fl t).evs = l₁ ++ Ev.sys sc :: l₂) :
+    ∃ c, sc.path = joinSlash c ∧ ∀ pre, pre <+: c → pre ≠ [] → pre ≠ c →
+      (∃ m, Ev.sys (.mkdir (joinSlash pre) m) ∈ l₁) ∧
+      (∀ sc' ∈ (unpackTree ord fl t).syscalls, sc'.isCreate = true → sc'.path = joinSlash pre →
+        ∃ m, sc' = .mkdir (joinSlash pre) m) := by
+  cases hs : treeSort t with
+  | error e =>
+    have : (unpackTree ord fl t).evs = [] := by unfold unpackTree; rw [hs]
+    rw [this] at h
+    cases l₁ <;> simp at h
+  | ok t' =>
+    obtain ⟨c, hpath, hg, hord'⟩ := unpackTree_ordered ord hord fl t t' hs l₁ sc l₂ h
+    refine ⟨c, hpath, fun pre hp1 hp2 hp3 => ⟨hord' pre hp1 hp2 hp3, ?_⟩⟩
+    intro sc' hsc' hcr hp'
+    obtain ⟨c₀, k₀, hm₀, hg₀, hpath₀, _⟩ := unpackTree_ops ord hord fl t t' hs sc (by rw [Out.mem_syscalls, h]; simp)
+    have e0 : c₀ = c := joinSlash_inj hg₀ hg (hpath₀.symm.trans hpath)
+    subst e0
+    have hd := visitRoot_prefix t' c₀ k₀ pre hm₀ hp1 hp2 hp3
+    obtain ⟨c', k', hm', hg', hpath', hc'⟩ := unpackTree_ops ord hord fl t t' hs sc' hsc'
+    have e1 : c' = pre := joinSlash_inj hg' (hg.prefix hp1) (hpath'.symm.trans hp')
+    subst e1
+    have e2 : k' = .dir := visitRoot_fun (treeSort_nodup t t' hs) c' k' .dir hm' hd
+    subst e2
+    obtain ⟨m, hm⟩ := create_dir_is_mkdir hcr hc'
+    exact ⟨m, by rw [hm, hp']⟩
 
 /-- **Resolution stays under R.** In any file system, a clean relative path (non-empty, good components) whose
     proper prefixes below `R` are directories or absent, handled no-follow — or whose last component is not a symlink —
@@ -72,10 +92,10 @@ theorem confinement (ord : List FileEnt → List FileEnt) (hord : OrdOK ord) (fl
     have hp := visitRoot_prefix t'
     exact (Inv.exec hf hp _ fs₀ (Inv.fresh hfresh) (unpackTree_ops ord hord fl t t' hs)).outside_eq
 
-/-- the same for the plan of a raw image tree (names cut at NUL, `--unpack-path` already applied) -/
-theorem confinement_raw (raw : TNode) (fl : Flags) (R : PathC) (fs₀ : Fs) (hfresh : Fresh fs₀ R) :
-    Confined R fs₀ (unpackPlan raw fl).syscalls :=
-  confinement id (fun _ _ h => h) fl (decode raw) R fs₀ hfresh
+/-- the same for the plan of a raw image tree (names cut at NUL, `-D -S -F -L -E` pruning, `--unpack-path` already applied) -/
+theorem confinement_raw (raw : TNode) (fl : Flags) (tf : TreeFlags) (R : PathC) (fs₀ : Fs) (hfresh : Fresh fs₀ R) :
+    Confined R fs₀ (unpackPlan raw fl tf).syscalls :=
+  confinement id (fun _ _ h => h) fl (decode tf raw) R fs₀ hfresh
 
 /-- **Inside R only tree nodes appear, as objects of their own kind**: after the run, whatever exists strictly
     below `R` sits at the path of a visited tree node and is a directory / regular file / symlink / special file
@@ -86,6 +106,16 @@ theorem below_R_only_tree_nodes (ord : List FileEnt → List FileEnt) (hord : Or
     fs (R ++ comps) = none ∨ ∃ n k, fs (R ++ comps) = some n ∧ (comps, k) ∈ visitRoot t' ∧ kindMatch n.kind k = true :=
   (Inv.exec (visitRoot_fun (treeSort_nodup t t' hs)) (visitRoot_prefix t') _ fs₀ (Inv.fresh hfresh)
     (unpackTree_ops ord hord fl t t' hs)).inn comps hne
+
+/-- **Skipped entries are reported; everything else is unpacked or the tool fails.**  If the create walk
+    (`restore_fstree`) does not fail, then (1) every entry it refuses — insane name, directly below the root or a
+    visited directory — has its "Found an entry named '…', skipping." event, and (2) every other reachable node
+    `(c, k)` has its creating call (of the sort that fits `k`) on the clean path of `c` in the plan. -/
+theorem skipped_reported_rest_unpacked (fl : Flags) (t : TNode) (h : (restoreFstree fl t).err = none) :
+    (∀ n ∈ skippedRoot t, Ev.skip n ∈ (restoreFstree fl t).evs) ∧
+    (∀ c k, (c, k) ∈ visitRoot t → ∃ sc, Ev.sys sc ∈ (restoreFstree fl t).evs ∧ sc.path = joinSlash c ∧
+        Compat sc k ∧ sc.isCreate = true) :=
+  ⟨(restoreFstree_complete fl t h).2, (restoreFstree_complete fl t h).1⟩
 
 /-- `canonicalize_name` never fails on what `sqfs_tree_node_get_path` returns (the `assert(ret == 0)` in
     restore_fstree.c cannot fire, add_file's "Invalid file path" is dead) -/
